@@ -441,3 +441,31 @@ def r7(cx):
                          "`%s` moves the slots of `%s.%s` with {%s} but those of `%s.%s` with {%s}: from the touched index on, every slot is paired with its neighbour's "
                          "%s" % (b.id, own, lead, ", ".join(sorted(lk)) or "-", own, o, ", ".join(sorted(ok_)) or "-", "overflow chain" if "overflow" in o else "value"))
     cx.floor("(function, parallel vector) pairs with slot-moving operations", n, 18)
+
+
+@rule("C18", "C18.R8", "a leaf is written in place only after the capacity test said the cell fits")
+def r8(cx):
+    """`insert_into_leaf` frees the old cell's overflow chain and rewrites the page; the page writer rejects a leaf that
+    needs more than a page.  The only thing that keeps that from happening is `can_fit_entry`, which prices the NEW cell
+    (on-page bytes are not monotone in the payload size: a payload just above the local limit keeps ~half a KiB on the
+    page and spills the rest, a slightly smaller one stays on the page whole).  Any way to reach the in-place write with
+    the capacity test false -- an `or` with a cheaper test on value lengths -- makes some overwrite fail after the old
+    chain was already freed: the stored leaf then points at free pages."""
+    f = cx.f
+    from ..core import bool_call_condition
+    n = 0
+    for b in f.scan_bodies():
+        if not b.file.endswith("bplustree/tree.rs") or "::tests::" in b.id:
+            continue
+        ws = [c for c in b.calls if c.bb in b.live and c.primary.split("::")[-1] == "insert_into_leaf"]
+        if not ws:
+            continue
+        cf = [c for c in b.calls if c.bb in b.live and c.primary.split("::")[-1] == "can_fit_entry"]
+        for w in ws:
+            n += 1
+            conds = [bool_call_condition(b, c, w.bb) for c in cf]
+            ok = any(cnd == frozenset({True}) for cnd in conds)
+            cx.check(ok, "`%s`: the in-place leaf write is reached only when can_fit_entry is true" % b.id, "leaf-write-without-capacity-test|%s" % b.name, w.where(),
+                     "`%s` can reach `insert_into_leaf` although `can_fit_entry` said no (or without asking): the leaf is rewritten with a cell whose on-page size was never "
+                     "priced; when it does not fit the write fails AFTER the old overflow chain was freed, and the stored leaf points at free pages" % b.id)
+    cx.floor("in-place leaf writes", n, 1)
